@@ -317,7 +317,8 @@ class Waiting(State):
         self.done_callback = done_callback
         self.msg = msg
         self.data = data
-        self._waiting_future: futures.Future = futures.Future()
+        # (a future of the loop of the process, which need not be the thread's current loop, e.g. when a checkpoint is loaded)
+        self._waiting_future: futures.Future = futures.Future(loop=process.loop)
 
     def save_instance_state(self, out_state: SAVED_STATE_TYPE, save_context: persistence.LoadSaveContext) -> None:
         super().save_instance_state(out_state, save_context)
@@ -331,7 +332,7 @@ class Waiting(State):
             self.done_callback = getattr(self.process, callback_name)
         else:
             self.done_callback = None
-        self._waiting_future = futures.Future()
+        self._waiting_future = futures.Future(loop=self.process.loop)
 
     def interrupt(self, reason: Any) -> None:
         if self._waiting_future.done():
@@ -342,7 +343,7 @@ class Waiting(State):
         # This will cause the future in execute() to raise the exception.  The wait is re-armed right away so that
         # the state can be re-executed and a resume arriving before the interrupted step has been dealt with is
         # delivered to the new future instead of being lost
-        waiting_future, self._waiting_future = self._waiting_future, futures.Future()
+        waiting_future, self._waiting_future = self._waiting_future, futures.Future(loop=self.process.loop)
         waiting_future.set_exception(reason)
 
     def exit(self) -> None:
